@@ -15,7 +15,11 @@
 (*                                                                         *)
 (* Escaping of free text (comments, metadata) at atom level: EscapeAtom.   *)
 (* "<NT>" and "<EU>" stand for n-tilde and the euro sign (TLC prints       *)
-(* non-ASCII characters as "?"; the harness expands the placeholders).     *)
+(* non-ASCII characters as "?"; the harness expands the placeholders);     *)
+(* "<C1>" and "<VT>" stand for the control characters U+0001 and U+000B,   *)
+(* which are not characters of XML 1.0 at all: no document that contains   *)
+(* them, raw or as a character reference, is well formed, so they cannot   *)
+(* reach the document.                                                     *)
 (***************************************************************************)
 EXTENDS Integers, Sequences, FiniteSets, TLC
 
@@ -52,8 +56,9 @@ PrintedOk(P, d, V, x, slack) ==
   ELSE AbsI(P - V * Pw(d - x)) <= Pw(d - x) * (1 + slack)
 
 \* atoms of free text and what escape_xml makes of them (text content must not contain raw < or &)
-TextAtoms == {"<", ">", "&", "\"", "'", "\\", "<NT>", "<EU>", "a", " ", "#", ":", "]]>", "&amp;"}
+TextAtoms == {"<", ">", "&", "\"", "'", "\\", "<NT>", "<EU>", "a", " ", "#", ":", "]]>", "&amp;", "<C1>", "<VT>", ","}
 EscapeAtom(a) == CASE a = "<" -> "&lt;" [] a = ">" -> "&gt;" [] a = "&" -> "&amp;" [] a = "\"" -> "&quot;"
-                   [] a = "\\" -> "&apos;" [] a = "]]>" -> "]]&gt;" [] a = "&amp;" -> "&amp;amp;" [] OTHER -> a
-RawDangerous == {"<", "&", "]]>", "&amp;"}
+                   [] a = "\\" -> "&apos;" [] a = "]]>" -> "]]&gt;" [] a = "&amp;" -> "&amp;amp;"
+                   [] a \in {"<C1>", "<VT>"} -> "" [] OTHER -> a
+RawDangerous == {"<", "&", "]]>", "&amp;", "<C1>", "<VT>"}
 =============================================================================
